@@ -55,7 +55,7 @@ type vfNodeConn struct {
 	Node    *vfNode
 	Conn    *vfMemConn
 	ID      int
-	sendq   chan []byte
+	sendq   chan vfSendItem
 	quit    chan struct{}
 	once    sync.Once
 	Version byte
@@ -65,10 +65,27 @@ type vfNodeConn struct {
 	closed  int32
 }
 
+// vfSendItem is one unit of output: b is written as a whole, or - when splitAt > 0 - its first
+// splitAt bytes, then a pause, then the rest (nothing else is written in between).
+type vfSendItem struct {
+	b       []byte
+	splitAt int
+	pause   time.Duration
+}
+
 // Send enqueues raw bytes to be written to the driver (never blocks the reader).
 func (nc *vfNodeConn) Send(b []byte) {
 	select {
-	case nc.sendq <- b:
+	case nc.sendq <- vfSendItem{b: b}:
+	case <-nc.quit:
+	}
+}
+
+// SendSplit writes b[:k], stalls for pause, then writes the rest: a response that arrives in two
+// pieces with a gap (e.g. longer than the driver's read deadline).
+func (nc *vfNodeConn) SendSplit(b []byte, k int, pause time.Duration) {
+	select {
+	case nc.sendq <- vfSendItem{b: b, splitAt: k, pause: pause}:
 	case <-nc.quit:
 	}
 }
@@ -167,7 +184,7 @@ func (n *vfNode) Dial() (*vfMemConn, *vfNodeConn, error) {
 	n.dials++
 	n.mu.Unlock()
 	d, s := vfNewMemPair(n.Addr, n.BufferLimit)
-	nc := &vfNodeConn{Node: n, Conn: s, ID: id, sendq: make(chan []byte, 4096), quit: make(chan struct{})}
+	nc := &vfNodeConn{Node: n, Conn: s, ID: id, sendq: make(chan vfSendItem, 4096), quit: make(chan struct{})}
 	d.onClose = func() {
 		n.mu.Lock()
 		n.closes++
@@ -191,16 +208,30 @@ func (n *vfNode) CloseAll() {
 func (nc *vfNodeConn) writer() {
 	for {
 		select {
-		case b := <-nc.sendq:
-			if _, err := nc.Conn.Write(b); err != nil {
+		case it := <-nc.sendq:
+			if it.splitAt > 0 && it.splitAt < len(it.b) {
+				if _, err := nc.Conn.Write(it.b[:it.splitAt]); err != nil {
+					return
+				}
+				select {
+				case <-time.After(it.pause):
+				case <-nc.quit:
+					return
+				}
+				if _, err := nc.Conn.Write(it.b[it.splitAt:]); err != nil {
+					return
+				}
+				continue
+			}
+			if _, err := nc.Conn.Write(it.b); err != nil {
 				return
 			}
 		case <-nc.quit:
 			// flush what is already queued, best effort
 			for {
 				select {
-				case b := <-nc.sendq:
-					nc.Conn.Write(b)
+				case it := <-nc.sendq:
+					nc.Conn.Write(it.b)
 				default:
 					return
 				}
